@@ -255,3 +255,11 @@ CONTRACTS = [c for c in c30.CONTRACTS if c.id in ('adapt_sql.cache', 'parse_raw_
     Contract('save_statement_caches', ['pony.orm.core:Entity._save_updated_', 'pony.orm.core:Entity._save_created_', 'pony.orm.core:Entity._save_deleted_', 'pony.orm.core:Entity._construct_optimistic_criteria_'],
              ES.save_configs, ES.save_case, [('warm_statements_equal_cold_statements', ES.spec)], level='bounded', bound=ES.BOUND_SAVE),
 ]
+
+
+def _share_bulk_delete():
+    # the constructed DELETE statement of Query.delete(bulk=True) is cached per query key too: a statement built for other pinned parameter values must not be reused (contract of C15)
+    from contracts import c15
+    CONTRACTS.extend(c for c in c15.CONTRACTS if c.id == 'bulk_delete_removes_exactly_the_selected_rows')
+_share_bulk_delete()
+
